@@ -6,7 +6,7 @@
 
 use std::{error::Error, fmt, str::FromStr};
 
-use onig::{Regex, RegexOptions, Syntax};
+use onig::{Regex, RegexOptions, Syntax, SyntaxBehavior};
 
 use super::{Matcher, MatcherIO, WalkEntry};
 
@@ -90,22 +90,28 @@ impl RegexMatcher {
         pattern: &str,
         ignore_case: bool,
     ) -> Result<Self, Box<dyn Error>> {
+        // grep matches line by line, so Oniguruma's grep syntax keeps '.' and '[^x]'
+        // from matching a newline.  find matches whole paths: in GNU find's grep
+        // syntax both match a newline, as in the POSIX syntaxes.
+        let mut grep_syntax = Syntax::grep().clone();
+        grep_syntax.set_behavior(
+            grep_syntax.behavior() - SyntaxBehavior::SYNTAX_BEHAVIOR_NOT_NEWLINE_IN_NEGATIVE_CC,
+        );
+        let mut options = RegexOptions::REGEX_OPTION_NONE;
+        if ignore_case {
+            options |= RegexOptions::REGEX_OPTION_IGNORECASE;
+        }
         let syntax = match regex_type {
             RegexType::Emacs => Syntax::emacs(),
-            RegexType::Grep => Syntax::grep(),
+            RegexType::Grep => {
+                options |= RegexOptions::REGEX_OPTION_MULTILINE;
+                &grep_syntax
+            }
             RegexType::PosixBasic => Syntax::posix_basic(),
             RegexType::PosixExtended => Syntax::posix_extended(),
         };
 
-        let regex = Regex::with_options(
-            pattern,
-            if ignore_case {
-                RegexOptions::REGEX_OPTION_IGNORECASE
-            } else {
-                RegexOptions::REGEX_OPTION_NONE
-            },
-            syntax,
-        )?;
+        let regex = Regex::with_options(pattern, options, syntax)?;
         Ok(Self { regex })
     }
 }
